@@ -85,6 +85,18 @@ fn comment_file(lang: &str, rng: &mut Rng) -> B {
     let block = matches!(lang, "rust" | "c" | "cpp" | "java" | "csharp" | "javascript" | "typescript" | "javascriptreact" | "typescriptreact" | "go" | "scala" | "dart" | "swift" | "php");
     let nseg = rng.range(2, 6);
     let mut last_was_comment = false;
+    // scripts begin with a shebang line (addressed to the system, never prose); a header comment usually follows,
+    // directly or behind a blank line
+    if matches!(lang, "shellscript" | "python" | "ruby") && rng.chance(1, 4) {
+        b.nonprose("code", ["#!/bin/sh\n", "#! /usr/bin/env python3\n", "#!/usr/bin/ruby -w\n"][rng.below(3)]);
+        if rng.chance(1, 2) { b.nonprose("ws", "\n"); }
+        for _ in 0..rng.range(1, 2) {
+            b.nonprose("leader", lead);
+            { let k = rng.range(2, 5); b.prose_words(rng, k); }
+            b.nonprose("ws", "\n");
+        }
+        code_line(lang, FILL[0], &mut b);
+    }
     for _ in 0..nseg {
         let fill = FILL[rng.below(FILL.len())];
         match if lang == "go" && !last_was_comment && rng.chance(1, 5) { 100 } else { rng.below(8) } {
